@@ -16,7 +16,8 @@ pub const THREADS: &[&str] = &["1", "2", "3", "4", "8", "16", "16", "5"];
 /// child entry point: compile the artifact, print one JSON line
 pub fn compile_child(art: &Value) -> Value {
   let (mods, entry) = mods_of(art);
-  match crate::model::exec::compile(&mods, &entry) {
+  let order: usize = std::env::var("VERIF_MODULE_ORDER").ok().and_then(|s| s.parse().ok()).unwrap_or(0);
+  match crate::model::exec::compile_in_order(&mods, &entry, order) {
     crate::model::exec::CompileOutcome::Ok(c) => json!({"verdict": "accepted", "wasm_hash": fnv(&c.wasm), "ts_hash": fnv(c.ts_code.as_bytes()), "wasm_b64": b64(&c.wasm), "ts": c.ts_code, "loader": c.loader, "main": c.main}),
     crate::model::exec::CompileOutcome::Rejected(m) => json!({"verdict": "rejected", "diagnostics": m}),
     crate::model::exec::CompileOutcome::Panicked(e) => json!({"verdict": "panicked", "where": e.0, "message": e.1}),
@@ -65,8 +66,40 @@ fn unb64(s: &str) -> Vec<u8> {
   out
 }
 
-fn run_child(art_path: &std::path::Path, threads: &str) -> Option<Value> {
-  let out = Command::new(std::env::current_exe().ok()?).args(["compile-child", &art_path.display().to_string()]).env("RAYON_NUM_THREADS", threads).stdin(Stdio::null()).stderr(Stdio::null()).output().ok()?;
+/// the error blocks of a rendered diagnostics text, stably grouped by module name (the trailing
+/// "Found n errors." line stays last)
+fn by_module(d: &str) -> Vec<String> {
+  let mut blocks: Vec<String> = vec![];
+  for line in d.split_inclusive('\n') {
+    if line.starts_with("Error --") || line.starts_with("Found ") || blocks.is_empty() {
+      blocks.push(String::new());
+    }
+    blocks.last_mut().unwrap().push_str(line);
+  }
+  let module = |b: &String| -> (u8, String) {
+    if !b.starts_with("Error --") {
+      return (1, String::new());
+    }
+    let head = b.lines().next().unwrap_or("");
+    let file = head.rsplit(' ').next().unwrap_or("");
+    (0, file.split(".sam:").next().unwrap_or("").to_string())
+  };
+  blocks.sort_by_key(module);
+  blocks
+}
+
+fn sorted_blocks(b: &[String]) -> Vec<String> {
+  let mut v = b.to_vec();
+  v.sort();
+  v
+}
+
+fn without_examples(b: &[String]) -> Vec<String> {
+  b.iter().map(|x| x.lines().filter(|l| !l.starts_with("Here is an example of a non-matching value")).collect::<Vec<_>>().join("\n")).collect()
+}
+
+fn run_child(art_path: &std::path::Path, threads: &str, order: usize) -> Option<Value> {
+  let out = Command::new(std::env::current_exe().ok()?).args(["compile-child", &art_path.display().to_string()]).env("RAYON_NUM_THREADS", threads).env("VERIF_MODULE_ORDER", order.to_string()).stdin(Stdio::null()).stderr(Stdio::null()).output().ok()?;
   serde_json::from_slice(&out.stdout).ok()
 }
 
@@ -75,7 +108,7 @@ impl Prop for C12 {
     "C12"
   }
   fn rule(&self) -> String {
-    "G1 programs chosen to amplify order sensitivity (2-3 modules, up to 7 classes, many lambdas / string literals / generic instantiations / recursive enums) and mutants of them carrying 1-3 injected static errors (so that several diagnostics exist and their order matters); each case is compiled by compile_sources in 8 fresh processes (fresh hash seeds) with RAYON_NUM_THREADS in {1,2,3,4,5,8,16,16}; oracle (differential across processes): same verdict, byte-identical rendered diagnostics, and - when accepted - every process's emitted WebAssembly and TypeScript have the same observable behaviour (executed in node 22, printed lines and end compared pairwise); byte identity of the artefacts is recorded as a metric only; non-trivial = >=2 modules and the runs differed in thread count (always) - evidence also reports in how many cases the artefact hashes differed; distinct = hash of the program text".into()
+    "G1 programs chosen to amplify order sensitivity (2-3 modules, up to 7 classes, many lambdas / string literals / generic instantiations / recursive enums), mutants of them carrying 1-3 injected static errors (so that several diagnostics exist and their order matters, incl. interfaces with several unimplemented members), and (1 case in 5) 1-3 modules of C07's generated pattern matrices (non-exhaustive matches with several possible witnesses); each case is compiled by compile_sources in 8 fresh processes (fresh hash seeds) with RAYON_NUM_THREADS in {1,2,3,4,5,8,16,16}; oracle (differential across processes): same verdict, byte-identical rendered diagnostics, and - when accepted - every process's emitted WebAssembly and TypeScript have the same observable behaviour (executed in node 22, printed lines and end compared pairwise); byte identity of the artefacts is recorded as a metric only; non-trivial = every case (the 8 runs always differ in hash seeds and thread counts) - evidence also reports in how many cases the artefact hashes differed; distinct = hash of the program text".into()
   }
   fn assumptions(&self) -> Vec<String> {
     vec![
@@ -90,6 +123,14 @@ impl Prop for C12 {
     }
   }
   fn generate(&self, t: &mut Tape, tier: Tier) -> Value {
+    if t.bool(1, 5) {
+      // hosts with pattern matrices (C07's generator): non-exhaustive matches admit several witnesses
+      let n = 1 + t.choose(3);
+      let mods: Mods = (0..n).map(|i| (vec![format!("P{i}")], super::c07::gen_case(t)["text"].as_str().unwrap_or("").to_string())).collect();
+      let mut art = art_of(&mods, &["P0".to_string()], &["pattern-matrices"]);
+      art["faults"] = json!([{"kind": "pattern-matrices", "site": "generated"}]);
+      return art;
+    }
     let mut cfg = super::behav::cfg_for("C12", tier);
     cfg.max_classes = 7;
     cfg.node_budget = 360;
@@ -120,8 +161,9 @@ impl Prop for C12 {
       return Outcome::discarded("INFRA:cannot-write-scratch-file");
     }
     let mut results: Vec<(String, Value)> = vec![];
-    for th in THREADS {
-      match run_child(&path, th) {
+    for (i, th) in THREADS.iter().enumerate() {
+      // module registration order: as given, reversed, then rotations
+      match run_child(&path, th, [0, 1, 2, 5, 4, 7, 0, 3][i % 8]) {
         Some(v) => results.push((th.to_string(), v)),
         None => {
           let _ = std::fs::remove_file(&path);
@@ -132,7 +174,7 @@ impl Prop for C12 {
     let _ = std::fs::remove_file(&path);
     let verdicts: Vec<&str> = results.iter().map(|(_, v)| v["verdict"].as_str().unwrap_or("?")).collect();
     out.label(format!("verdict:{}", verdicts[0]));
-    out.nontrivial = mods.len() >= 2;
+    out.nontrivial = true;
     out.sample = Some(json!({"modules": mods.len(), "faults": art["faults"], "verdict": verdicts[0], "program": super::fmt_common::short(&describe(&mods), 500)}));
     let prog = || describe(&mods);
     if verdicts.iter().any(|v| *v != verdicts[0]) {
@@ -142,17 +184,29 @@ impl Prop for C12 {
     match verdicts[0] {
       "rejected" => {
         let d0 = results[0].1["diagnostics"].as_str().unwrap_or("");
+        let n0 = by_module(d0);
         for (th, v) in &results[1..] {
           let d = v["diagnostics"].as_str().unwrap_or("");
-          if d != d0 {
-            let i = d.bytes().zip(d0.bytes()).position(|(a, b)| a != b).unwrap_or(d.len().min(d0.len()));
-            let lo = i.saturating_sub(200);
-            out.fail(
-              "diagnostics-differ-between-processes",
-              format!("rendered diagnostics differ between RAYON_NUM_THREADS={} and {}:\n--- first ---\n{}\n--- second ---\n{}\n{}", THREADS[0], th, d0.get(lo..(i + 200).min(d0.len())).unwrap_or(""), d.get(lo..(i + 200).min(d.len())).unwrap_or(""), prog()),
-            );
-            return out;
+          if d == d0 {
+            continue;
           }
+          let n = by_module(d);
+          let show = |a: &str, b: &str| {
+            let i = a.bytes().zip(b.bytes()).position(|(x, y)| x != y).unwrap_or(a.len().min(b.len()));
+            let lo = (0..=i.saturating_sub(300)).rev().find(|k| a.is_char_boundary(*k) && b.is_char_boundary(*k)).unwrap_or(0);
+            let cut = |t: &str| t.get(lo..).map(|x| x.chars().take(700).collect::<String>()).unwrap_or_default();
+            format!("--- first ---\n{}\n--- second ---\n{}", cut(a), cut(b))
+          };
+          if n == n0 {
+            // same errors, same order inside every module: only the order of the modules differs
+            if !out.failures.iter().any(|f| f.sig.ends_with("/module-order")) {
+              out.fail("diagnostics-differ-between-processes/module-order", format!("the errors of different modules are printed in the order in which the modules were registered (runs 0 and RAYON_NUM_THREADS={th} registered them in different orders):\n{}\n{}", show(d0, d), prog()));
+            }
+            continue;
+          }
+          let class = if sorted_blocks(&n) == sorted_blocks(&n0) { "order-within-module" } else if without_examples(&n) == without_examples(&n0) { "counterexample-choice" } else { "content" };
+          out.fail(format!("diagnostics-differ-between-processes/{class}"), format!("rendered diagnostics differ between RAYON_NUM_THREADS={} and {} (after grouping by module):\n{}\n{}", THREADS[0], th, show(&n0.join(""), &n.join("")), prog()));
+          return out;
         }
         if d0.matches("Error ---").count() >= 2 {
           out.label("diagnostics:>=2");
